@@ -1030,7 +1030,7 @@ def run(cx, rep):
     rep.rule("C04.12", "an entry of the validator table of a discriminated union that lists several variants narrows them to its key (the re-dispatched union is smaller)")
     importlib.import_module("rules.c02").disc_schema_table_rule(cx, rep, "C04.12", which="validator")
     # ---------------------------------------------------------------- C04.13
-    rep.rule("C04.13", "a set-once slot (its setter panics when called twice) is set at most once per processed export item (= C09.19)")
+    rep.rule("C04.13", "a set-once slot (its setter refuses a second value: panic or recorded error) is set at most once per processed export item, and a recorded refusal is consulted (= C09.19)")
     importlib.import_module("rules.c09").set_once_rule(cx, rep, "C04.13")
     rep.rule("C04.7", "an Anchor pairs a span with the file the span was read in (syntax and its file travel together)")
     anchor_colocation_rule(cx, rep, "C04.7")
